@@ -28,6 +28,13 @@ class C17Run(E2Run):
         for n in self.scenario["simulation"]["network"]["nodes"]:
             if n["type"] in ("computer", "server", "printer"):
                 apps = n.setdefault("applications", [])
+                if n["hostname"] == roles["db"]:
+                    # a node delivers a port's traffic to ONE software item and client-type applications use the
+                    # service's port: the server host carries the service only (as in the shipped scenarios)
+                    n["applications"] = [a for a in apps if a["type"] not in ("database-client", "dos-bot", "data-manipulation-bot", "ransomware-script")]
+                    for t in ("database-client", "dos-bot", "data-manipulation-bot", "ransomware-script"):
+                        self.inv["hosts"][roles["db"]]["applications"].pop(t, None)
+                    continue
                 if not any(a["type"] == "database-client" for a in apps):
                     apps.append({"type": "database-client", "options": {"db_server_ip": db_ip}})
 
@@ -76,7 +83,7 @@ class C17Run(E2Run):
     def call_connect(self, client: str):
         node = self.node(client)
         app = node.software_manager.software.get("database-client")
-        if app is None:
+        if app is None or app.server_ip_address is None:
             return
         pre_server_up, pre_path, pre_client = self.server_up(), self.path_ok(node), self.client_up(node)
         n_open = len(self.svc.connections)
@@ -151,6 +158,9 @@ class C17Run(E2Run):
             return
         else:
             return
+        app = node.software_manager.software.get("database-client")
+        if app is None or app.server_ip_address is None:
+            return  # (a client that has never been pointed at a server has nowhere to send a forged query)
         conn = DatabaseClientConnection(connection_id=cid, parent_node=node)
         self.probe("c17_forged_query")
         self._query(conn, sql, legit=False, what=kind)
@@ -166,6 +176,7 @@ class C17Run(E2Run):
             self.probe("c17_disconnected")
 
     def call_backup(self):
+        self._transfers = getattr(self, "_transfers", 0) + 1
         hb = self.file_health()
         up = self.server_up()
         ok = self.svc.backup_database()
@@ -182,6 +193,8 @@ class C17Run(E2Run):
         return b.operating_state.name == "ON" and ftp is not None and ftp.operating_state.name == "RUNNING" and self.nic_up(b) and self.nic_up(self.server)
 
     def call_restore(self):
+        fresh_tick = getattr(self, "_transfers", 0) == 0  # links carry a limited volume per tick; a 5 MB file is large
+        self._transfers = getattr(self, "_transfers", 0) + 1
         hb = self.file_health()
         up = self.server_up()
         reach = self.backup_reachable()
@@ -193,7 +206,7 @@ class C17Run(E2Run):
                 raise Violation("C17", "restore-succeeded-while-unavailable", f"restore_backup() succeeded although {'the service was not available' if not up else 'the backup host was off, its ftp-server not running or an interface down'}", sig="restore-succeeded-while-unavailable:" + ("service" if not up else "backup-host"), detail={})
             if self.m["backup_health"] == "GOOD" and ha != "GOOD":
                 raise Violation("C17", "restore-of-healthy-backup-not-good", f"restore of a backup taken while the data was GOOD left the file {ha}", sig="restore-of-healthy-backup-not-good", detail={})
-        elif up and reach and self.m["backup_health"] == "GOOD" and not self.same_host_backup and self.svc.health_state_actual.name in ("GOOD", "COMPROMISED"):
+        elif fresh_tick and up and reach and self.m["backup_health"] == "GOOD" and not self.same_host_backup and self.svc.health_state_actual.name in ("GOOD", "COMPROMISED"):
             # bounded liveness: everything needed is there, nothing blocks - the restore must work
             self.probe("c17_restore_expected")
             raise Violation("C17", "restore-failed-although-possible", f"restore_backup() failed although a healthy backup is stored, the service and the backup host are up (file {hb})", sig="restore-failed-although-possible", detail={})
@@ -230,6 +243,7 @@ class C17Run(E2Run):
         return super().do_op(op)
 
     def on_tick(self):
+        self._transfers = 0
         for cid in list(self.m["open"]):
             if cid not in self.svc.connections:
                 self.m["open"].discard(cid)
